@@ -466,7 +466,14 @@ class MultiFit(FitBase):
 
         _x_errors = np.sqrt(np.diag(self._nexus.get("x_cov_mat").value))
         _non_zero_x_errors = _x_errors[_x_errors > 0.0]
+        _min_x_error_before = self._min_x_error
         self._min_x_error = None if len(_non_zero_x_errors) == 0 else np.min(_non_zero_x_errors)
+        if self._min_x_error != _min_x_error_before:
+            # the derivatives (and what is built on them) are evaluated with the smallest x error: they are out of date now
+            for _i in range(len(self._fits)):
+                _derivatives_node = self._nexus.get("derivatives%s" % _i)
+                if _derivatives_node is not None:
+                    _derivatives_node.mark_for_update()
 
     def _set_new_data(self, new_data):
         raise NotImplementedError()
